@@ -16,10 +16,13 @@ def _norm(v):
 
 
 def num_eq(dte, ve, dto, vo):
+    """negative zero: the specification produces it only by copying, never by arithmetic, so an expected +0 accepts either
+    sign while an expected -0 demands -0"""
     ve, vo = _norm(ve), _norm(vo)
     if _isf(dte) == _isf(dto):
-        return ve == vo
-    return _asq(dte, ve) == _asq(dto, vo)
+        return ve == vo or (ve == [0, 1] and vo == [0, -1])
+    e, o = _asq(dte, ve), _asq(dto, vo)
+    return e == o or (e == [0, 1] and o == [0, -1])
 
 
 def seq_eq(dte, qe, dto, qo):
